@@ -248,14 +248,21 @@ func (server *Server) tlsServe(l net.Listener, tlsConfig *tls.Config) error {
 			return err
 		}
 
-		tlsConn := tls.Server(conn, tlsConfig)
-		if err := tlsConn.Handshake(); err != nil {
-			return err
-		}
-		tlsState := tlsConn.ConnectionState()
-
-		go server.receive(tlsConn, &tlsState)
+		go server.tlsReceive(conn, tlsConfig)
 	}
+}
+
+// tlsReceive performs the TLS handshake of a client connection and handles the connection.
+// The handshake is done in the goroutine of the connection so that a failed, stalled or
+// abandoned handshake affects only that client.
+func (server *Server) tlsReceive(conn net.Conn, tlsConfig *tls.Config) error {
+	tlsConn := tls.Server(conn, tlsConfig)
+	if err := tlsConn.Handshake(); err != nil {
+		log.Error(err)
+		return errors.Join(err, conn.Close())
+	}
+	tlsState := tlsConn.ConnectionState()
+	return server.receive(tlsConn, &tlsState)
 }
 
 // receive handles a client connection.
